@@ -6,7 +6,7 @@ The patch /verif/seeded/<seed_id>/patch.diff is applied to a scratch git worktre
 never /repo itself) and the check is pointed at it through VERIF_REPO; the verdict (exit code,
 VIOLATION lines, failed obligations) is appended to seeded/<seed_id>/meta.json under "checks".
 """
-import json, os, subprocess, sys, time
+import json, os, re, subprocess, sys, time
 
 VERIF = os.path.dirname(os.path.dirname(os.path.abspath(__file__)))
 SC = "/tmp/sc"
@@ -35,10 +35,20 @@ def main():
     if r.returncode != 0:
         print("patch does not apply:", r.stdout)
         return 2
+    # a patch that touches only crates/ordinals cannot change what the E2 harnesses (real `ord` files, varint under
+    # contract) see, and a patch that touches only src/ cannot change E1/E1S/EV: run the engines that can be affected
+    touched = re.findall(r"^\+\+\+ b/(\S+)", open(f"{sdir}/patch.diff").read(), re.M)
+    only = None
+    if touched and all(t.startswith("crates/ordinals/") for t in touched):
+        only = "e1,e1s,ev"
+    elif touched and all(t.startswith("src/") for t in touched):
+        only = "e2"
     try:
         for prop in props:
             t0 = time.time()
             env = dict(os.environ, VERIF_REPO=SC, VERIF_TIER=tier)
+            if only:
+                env["VERIF_ONLY_ENGINE"] = only
             cmd = f"./check {prop}"
             if tier == "thorough":
                 cmd += " --tier thorough"
@@ -57,7 +67,7 @@ def main():
                     obs.append({"line": v, "error": repr(e)})
             und = [l for l in r.stderr.splitlines() if l.startswith("UNDECIDED")]
             meta.setdefault("checks", {})[f"{prop}:{tier}"] = {
-                "cmd": f"VERIF_REPO=<scratch worktree with patch.diff applied> {cmd}", "exit_code": r.returncode,
+                "cmd": f"VERIF_REPO=<scratch worktree with patch.diff applied> {cmd}" + (f"   (engines {only}: the patch touches only {'crates/ordinals' if only != 'e2' else 'src/'})" if only else ""), "exit_code": r.returncode,
                 "detected": r.returncode == 1 and bool(viol), "violations": obs, "undecided": und[:6], "wall_s": round(time.time() - t0, 1)}
             print(sid, prop, tier, "rc=%d" % r.returncode, "DETECTED" if r.returncode == 1 and viol else "missed", [o.get("obligation", "")[:90] for o in obs][:4], und[:2])
     finally:
